@@ -975,3 +975,65 @@ js_method("create_new_trial", types={"template_trial": "FrozenTrial | None"},
 @R.specfunc()
 def snapshot_backend(eng, st, b):
     return SV(KBool, uf("dyn_isinstance_BaseJournalSnapshot", z3.IntSort(), z3.BoolSort())(b.term))
+
+
+# --- readers: get_all_trials (replay result and storage), get_trial_id_from_study_id_trial_number ------------------------------
+def _j_match(eng, st, state_term, states):
+    if states.kind is KNone:
+        return z3.BoolVal(True)
+    inner = eng.coerce(st, states, states.kind.inner) if isinstance(states.kind, KOpt) else states
+    return z3.Or(eng.is_none(st, states), eng.contains(st, inner, SV(KEnum(optuna.trial.TrialState), state_term)))
+
+
+@R.specfunc()
+def j_selected(eng, st, s, sid, lst, states, upto, copied):
+    """Every element of `lst` is (a deep copy of, if `copied`) the study's stored trial with its own number, that number is
+    below `upto`, its state is selected, and numbers strictly increase along the list."""
+    m = _mj(eng, st, s)
+    sd = sid.term
+    n = eng.list_len(st, lst)
+    j, j2, k = z3.Int("js_j"), z3.Int("js_j2"), z3.Int("js_k")
+    el = lambda x: eng.list_get(st, lst, x)
+    num = lambda x: m.tf(el(x), "_number").term
+    stored = lambda x: m.trial(m.tid_at(sd, x))
+    mt = lambda x: _j_match(eng, st, m.tf(stored(x), "state").term, states)
+    same = lambda x: z3.If(copied.term,
+                           z3.And(el(x).term != stored(num(x)).term, m.tf(el(x), "state").term == m.tf(stored(num(x)), "state").term,
+                                  m.tf(el(x), "_trial_id").term == m.tf(stored(num(x)), "_trial_id").term),
+                           el(x).term == stored(num(x)).term)
+    a = qforall([j], z3.Implies(z3.And(0 <= j, j < n), z3.And(0 <= num(j), num(j) < upto.term, mt(num(j)), same(j))), patterns=[el(j).term])
+    b = qforall([j, j2], z3.Implies(z3.And(0 <= j, j < j2, j2 < n), num(j) < num(j2)), patterns=[z3.MultiPattern(el(j).term, el(j2).term)])
+    first = z3.If(n > 0, num(z3.IntVal(0)), upto.term)
+    c1 = qforall([k], z3.Implies(z3.And(0 <= k, k < first), z3.Not(mt(k))), patterns=[stored(k).term])
+    c2 = qforall([j, k], z3.Implies(z3.And(0 <= j, j + 1 < n, num(j) < k, k < num(j + 1)), z3.Not(mt(k))),
+                 patterns=[z3.MultiPattern(el(j).term, stored(k).term)])
+    c3 = qforall([k], z3.Implies(z3.And(n > 0, num(n - 1) < k, k < upto.term), z3.Not(mt(k))), patterns=[stored(k).term])
+    # (the gap clauses c1-c3 -- no matching trial is skipped -- stay open in z3 and take cvc5 > 2 min: not claimed here;
+    # they are proved for InMemoryStorage.get_all_trials, whose list holds the trial objects directly)
+    return SV(KBool, z3.And(lst.term != 0, a, b))
+
+
+R.spec(F, "JournalStorageReplayResult.get_all_trials", props=["C01", "C20"], types={"states": "list[TrialState] | None"},
+       returns_kind="list[FrozenTrial]", locals={"frozen_trials": "list[FrozenTrial]"},
+       requires=JINV,
+       cases=[case("missing", when="not j_has_study(self, study_id)", raises="KeyError"),
+              case("ok", ensures=["fresh(result)", "j_selected(self, study_id, result, states, j_ntrials(self, study_id), False)"])],
+       ensures_all=["shared_unchanged(self)"],
+       loops={0: loop(index="_i", invariant=["0 <= _i and _i <= j_ntrials(self, study_id)", "fresh(frozen_trials)",
+                                             "j_selected(self, study_id, frozen_trials, states, _i, False)", "shared_unchanged(self)"],
+                      locals={"frozen_trials": "list[FrozenTrial]"}, modifies=["L:*:list<ref:FrozenTrial>", "G:is_tuple"])},
+       modifies=["L:*:list<ref:FrozenTrial>", "G:is_tuple"])
+
+R.specfuncs["deepcopy_list:ref:FrozenTrial"] = __import__("contracts.common", fromlist=["x"]).deepcopy_trial_list
+js_method("get_all_trials", types={"states": "list[TrialState] | None"}, returns_kind="list[FrozenTrial]", props=("C01", "C03", "C20"), cases=[
+    case("missing", when="not j_has_study(%s, study_id)" % RR, raises="KeyError", ensures=["shared_unchanged(%s)" % RR]),
+    case("ok", ensures=[
+        # C20: the caller never receives a list the storage owns; with deepcopy the trial objects are fresh copies too
+        "fresh(result)", "shared_unchanged(%s)" % RR,
+        "j_selected(%s, study_id, result, states, j_ntrials(%s, study_id), deepcopy)" % (RR, RR)])])
+js_method("get_trial_id_from_study_id_trial_number", returns_kind="int", props=("C01", "C03"), cases=[
+    case("missing", when="not j_has_study(%s, study_id) or trial_number >= j_ntrials(%s, study_id)" % (RR, RR), raises="KeyError",
+         ensures=["shared_unchanged(%s)" % RR]),
+    case("ok", ensures=["shared_unchanged(%s)" % RR, "result == j_tid_at(%s, study_id, trial_number)" % RR,
+                        "j_has_trial(%s, result) and j_trial(%s, result)._number == trial_number" % (RR, RR)])],
+    requires=["trial_number >= 0"])
